@@ -51,6 +51,8 @@ def classify(component, what, case):
         return "F179"
     if law == "implicit" and "missing-defaults-of-a-case-whose-data-sits-in-a-nested-choice" in feat:
         return "F180"
+    if law in ("idempotent", "idempotent-tree", "implicit", "valdiff-eq") and "default-np-container-left-in-non-default-case" in feat:
+        return "F189"
     return None
 
 
@@ -298,6 +300,22 @@ def case_npcont_family(cx):
                 steps += ["C:%s:%s" % (addr_nc, tg.tok([tg.DN(a, b"again")])), "V"]
             h = Hist(s, steps, [], [[] for _ in range(10)], 0)
             hists.append(h)
+    # F189 shape: a non-presence container in a non-default case loses its last explicit child DURING a validation (the explicit
+    # data of its inner case are replaced by a new, empty non-presence container of another inner case)
+    S, T = tg.SNode, tg.Ty
+    for i in range(cx.n(6, 30)):
+        st = T("string")
+        y, z, w = S("leaf", "y", ty=st), S("leaf", "z", ty=st, dflt=(b"dz" if rng.random() < 0.4 else None)), S("leaf", "w", ty=st)
+        c2 = S("container", "c2", kids=[z])
+        ch2 = S("choice", "ch2", kids=[S("case", "a2", kids=[y]), S("case", "b2", kids=[c2])])
+        c = S("container", "c", kids=[ch2] + ([S("leaf", "q", ty=st, dflt=b"dq")] if rng.random() < 0.5 else []))
+        ch1 = S("choice", "ch1", kids=[S("case", "a1", kids=[c]), S("case", "b1", kids=[w])])
+        top = S("container", "top", presence=True, kids=[ch1])
+        s = vg.XSchema("vk%02d" % i, [top])
+        schemas.append(s)
+        steps = ["C:-:%s" % tg.tok([tg.DN(top, None, [tg.DN(c, None, [tg.DN(y, b"v")])])]), "V",
+                 "C:%d/%d:%s" % (top.sid, c.sid, tg.tok([tg.DN(c2, None, [])])), "V", "V"]
+        hists.append(Hist(s, steps, [], [[] for _ in range(10)], 0))
     base = 900000
     for k, h in enumerate(hists):
         h.k = base + k
@@ -414,6 +432,13 @@ def tree_features(s, tree_tok):
             if keyless and n.flags & tg.F_DFLT:
                 f.add("implicit-below-keyless-list")
             groups.setdefault(n.sn.sid, []).append(n)
+            if n.sn.np_cont() and (n.flags & tg.F_DFLT) and n.sn.parent is not None and n.sn.parent.kind == "case" and \
+                    not any(not (k.flags & tg.F_DFLT) for k in n.kids):
+                ch = n.sn.parent.parent
+                if ch.dflt != n.sn.parent.name:
+                    # a default-flagged non-presence container of a NON-default case survived the validation although the
+                    # case has no explicit data left (it lost its last explicit child during this validation: F189)
+                    f.add("default-np-container-left-in-non-default-case")
             walk(n.kids, keyless or (n.sn.kind == "list" and not n.sn.keys))
         for g in groups.values():
             if g[0].sn.kind in ("leaflist", "list") and g[0].sn.is_userord() and any(x.flags & tg.F_DFLT for x in g):
